@@ -167,6 +167,30 @@ def check_ref(prop, case, agg, options=None, units=None):
                           "options": options or {}, "entry": u["entry"], "inputs": {"args": args, "globals": globs},
                           "expected": {"return": ref[1], "globals": ref[2]}, "observed": rec[2]})
                 break
+    # the same invocations once more on ONE VM, forwards and then backwards: what a function computes does not depend on which
+    # functions (or which inputs) the VM ran before
+    todo = [(u, a, g) for u in units for a, g in u["inputs"]]
+    if len(todo) > 64:
+        todo = [(u, a, g) for u in units for a, g in u["inputs"][:1]]       # many functions in the module: the first input of each
+    if 2 <= len(todo) <= 64 and not any(f.get("source") == src for f in agg.fails[-3:]):
+        vm = new_vm(program)
+        for u, args, globs in todo + todo[::-1]:
+            ref = ref_outcome(prog, u["entry"], args, globs)
+            if ref[0] != "ok":
+                continue
+            try:
+                for k, v in globs.items():
+                    vm.SetGlobal(k, copy.deepcopy(v))
+                with pool.time_limit(INVOKE_LIMIT):
+                    got = vm.Invoke(u["entry"], **copy.deepcopy(args))
+            except BaseException as e:
+                got = f"<<{type(e).__name__}>>"
+            agg.evals += 1
+            if isinstance(got, str) and got.startswith("<<") or not values_equal(got, ref[1]):
+                agg.fail({"key": f"{prop}|{case['fam']}|wrong-value-on-a-reused-vm|return|{u.get('desc') or case['desc']}", "source": src, "options": options or {}, "entry": u["entry"],
+                          "inputs": {"args": args, "globals": globs}, "reused_vm": [[x["entry"], a, g] for x, a, g in todo], "expected": {"return": ref[1], "globals": ref[2]},
+                          "observed": f"{short(got)} on a VM that had already run the case's other invocations"})
+                break
     if len(agg.samples) < 2:
         agg.samples.append({"source": src[:600], "entry": units[0]["entry"], "inputs": short(units[0]["inputs"][:2], 200)})
 
@@ -183,6 +207,22 @@ def replay_ref(rec, verbose=True):
         return False
     program = link(res.module)
     args, globs = rec["inputs"]["args"], rec["inputs"]["globals"]
+    if "reused_vm" in rec:
+        vm = new_vm(program)
+        seq = rec["reused_vm"]
+        last = None
+        for entry, a, g in seq + seq[::-1]:
+            try:
+                for k, v in g.items():
+                    vm.SetGlobal(k, copy.deepcopy(v))
+                r = vm.Invoke(entry, **copy.deepcopy(a))
+            except BaseException as e:
+                r = f"<<{type(e).__name__}>>"
+            if entry == rec["entry"] and a == args and g == globs and (isinstance(r, str) or not values_equal(r, rec["expected"]["return"])):
+                if verbose:
+                    print(src, "\nsequence on one VM:", seq, "\nexpected", rec["expected"], "observed", r)
+                return True
+        return False
     got = vm_outcome(program, rec["entry"], args, globs)
     exp = rec["expected"]
     bad = got[0] != "ok" or not values_equal(got[1], exp["return"]) or not values_equal(got[2], exp["globals"])
